@@ -34,6 +34,12 @@ where
         return Err(());
     }
 
+    // Negative (or NaN) entries would lead to a non-monotonic CDF even if they sum up to a
+    // positive normalization. Note that `!(p >= 0)` is also true for NaN.
+    if probabilities.iter().any(|p| !(*p >= F::zero())) {
+        return Err(());
+    }
+
     let free_weight =
         wrapping_pow2::<Probability>(PRECISION).wrapping_sub(&probabilities.len().as_());
     let normalization = normalization.unwrap_or_else(|| probabilities.iter().copied().sum::<F>());
